@@ -144,8 +144,13 @@ pub fn test_case(c: &ServeCase, stats: &mut Stats) -> Result<(), String>
     w.write(".ruler/cache/x.y", CANARY_RULER.as_bytes())?;
     w.write(&format!(".ruler/history/{}", hashlike_hist), CANARY_HIST.as_bytes())?;
 
+    // a directory inside the cache named like a valid hash (what backing up a directory target leaves behind)
+    let hashlike_dir = rand_hash(&mut rng);
+    std::fs::create_dir_all(w.path(&format!(".ruler/cache/{}", hashlike_dir))).map_err(|e| format!("harness: {}", e))?;
+    w.write(&format!(".ruler/cache/{}/inside.txt", hashlike_dir), CANARY_RULER.as_bytes())?;
+
     let snap = w.snapshot();
-    let cache: BTreeMap<String, Vec<u8>> = snap.iter().filter(|(k, _)| k.starts_with(".ruler/cache/") && !k.ends_with("/canary") && !k.ends_with("/x.y")).map(|(k, v)| (k[".ruler/cache/".len()..].to_string(), v.0.clone())).collect();
+    let cache: BTreeMap<String, Vec<u8>> = snap.iter().filter(|(k, _)| k.starts_with(".ruler/cache/") && !k.ends_with("/canary") && !k.ends_with("/x.y") && !k.ends_with("/inside.txt")).map(|(k, v)| (k[".ruler/cache/".len()..].to_string(), v.0.clone())).collect();
 
     // start the server (retry on port collisions)
     let mut started = None;
@@ -185,7 +190,7 @@ pub fn test_case(c: &ServeCase, stats: &mut Stats) -> Result<(), String>
         }
     }
     // 2. valid-looking hashes that are not cached (incl. the hash-named canaries)
-    let mut absent = vec![hashlike_root.clone(), hashlike_ruler.clone(), hashlike_hist.clone()];
+    let mut absent = vec![hashlike_root.clone(), hashlike_ruler.clone(), hashlike_hist.clone(), hashlike_dir.clone()];
     for _ in 0..(6 + c.extra_requests % 8)
     {
         absent.push(rand_hash(&mut rng));
